@@ -115,6 +115,14 @@ CLAIMS = {
              "units' (numeric).",
         technique="guard-edge reachability (operator-exact) + operand-role matching across sibling sites",
         ref="6/C05"),
+    "C06": dict(
+        text="Decides the structural clauses of the slashing check: pool totals are assigned only through the strict booked > delegated "
+             "edge (a check can never raise a pool); the new bSei pool is delegated x from_ratio(old bSei, booked) and the stSei pool its "
+             "complement (so the post-check sum is the delegated amount by shape); the delegated sum counts only the hub's own delegations "
+             "in the staking denom; the recomputed State is what is saved, and CheckSlashing runs it. Token pairing of the withdraw-rate "
+             "computation is checked under C01.g. NOT decided: 'within two base units' and multi-batch proportionality (numeric).",
+        technique="guard-edge reachability on field assignments + operand-role/complement shape matching",
+        ref="6/C06"),
 }
 
 NA = {
